@@ -138,8 +138,8 @@ theorem countdown_spec (can : Vector Bool n) (ta : TA n) (j : Fin n) :
   unfold kAwake minAwake
   refine ⟨fun h => by rw [if_pos h], fun h hc => ?_, fun h hc => ?_, fun h hc => ?_, fun h1 h2 => ?_⟩
   · rw [if_neg (by omega), hc]; simp
-  · rw [if_neg (by omega), hc]; simp; omega
-  · rw [if_neg (by omega), hc]; simp; omega
+  · rw [if_neg (by omega), hc]; simp only [if_true]; rw [if_pos h]
+  · rw [if_neg (by omega), hc]; simp only [if_true]; rw [if_neg (by omega)]; exact h
   · rw [if_neg (by omega)]
     split
     · split <;> omega
